@@ -158,6 +158,12 @@ class NDArr:
         return s2
 
     def pyvc_subst(self, fn):
+        if self.base is not None:
+            nb = self.base.pyvc_subst(fn)
+            ln = fn(self._len) if is_z3(self._len) else self._len
+            off = fn(self.off) if is_z3(self.off) else self.off
+            v = NDArr(self.ctx, Seq(ln, None, nb.seq.sort), nb.kind, nb.owner, self.cls, base=nb, off=off, ndim=self.ndim)
+            return v
         s = self.seq
         a = NDArr(self.ctx, fn(s), fn(self.kind) if is_z3(self.kind) else self.kind, self.root().owner, self.cls, ndim=self.ndim)
         if self.root().fresh_cond is not None:
@@ -171,6 +177,11 @@ class NDArr:
         k = self.kind if (isinstance(self.kind, str) and self.kind == other.kind) else z3.If(cond, kind_term(self.kind), kind_term(other.kind))
         if self.cls is not other.cls:
             raise Unsupported("merge of arrays of different classes")
+        if self.base is not None and other.base is not None and self.base is other.base:
+            # two views of one buffer: a view with merged offset and length
+            ln = conc(z3.If(cond, zint(self._len), zint(other._len)))
+            off = conc(z3.If(cond, zint(self.off), zint(other.off)))
+            return NDArr(self.ctx, Seq(ln, None, self.base.seq.sort), self.kind, self.owner, self.cls, base=self.base, off=off, ndim=self.ndim)
         if self.owner == other.owner and self.fresh_cond is None and other.fresh_cond is None:
             return NDArr(self.ctx, merge(cond, self.seq, other.seq), k, self.owner, self.cls)
         r = NDArr(self.ctx, merge(cond, self.seq, other.seq), k, "mixed", self.cls)
